@@ -281,9 +281,13 @@ tlstran_pipe_send_cb(void *arg)
 		// usable, with a partial transfer.
 		// The protocol should see this error, and close the
 		// pipe itself, we hope.
-		nni_aio_list_remove(aio);
+		// As nothing else will be sent, every queued send fails:
+		// one left in the queue could never be completed.
+		while ((aio = nni_list_first(&p->sendq)) != NULL) {
+			nni_aio_list_remove(aio);
+			nni_aio_finish_error(aio, rv);
+		}
 		nni_mtx_unlock(&p->mtx);
-		nni_aio_finish_error(aio, rv);
 		nni_pipe_bump_error(p->npipe, rv);
 		return;
 	}
@@ -396,15 +400,19 @@ tlstran_pipe_recv_cb(void *arg)
 	return;
 
 recv_error:
-	nni_aio_list_remove(aio);
+	// Intentionally, we do not queue up another receive.
+	// The protocol should notice this error and close the pipe.
+	// As nothing else will be received, every queued receive fails:
+	// one left in the queue could never be completed.
+	while ((aio = nni_list_first(&p->recvq)) != NULL) {
+		nni_aio_list_remove(aio);
+		nni_aio_finish_error(aio, rv);
+	}
 	msg      = p->rxmsg;
 	p->rxmsg = NULL;
 	nni_pipe_bump_error(p->npipe, rv);
-	// Intentionally, we do not queue up another receive.
-	// The protocol should notice this error and close the pipe.
 	nni_mtx_unlock(&p->mtx);
 	nni_msg_free(msg);
-	nni_aio_finish_error(aio, rv);
 }
 
 static void
